@@ -141,7 +141,7 @@ Section Shape.
                 | _ => exists ps, v_det vr = VStruct ps /\ struct_sh_skip t bprops breq ps /\
                                   deny = match bap with Some (SBool false) => true | _ => false end
                 end
-          | TagUntagged => True
+          | TagUntagged => exists vr, In vr vs /\ match v_det vr with VItem t' => sh b t' | _ => False end
           end
       | SBool _ => True
       end.
@@ -252,7 +252,7 @@ Section Ok.
             | VStruct ps => vdet_ok look (VStruct ps) /\ mem_ustr tg (wire_names ps) = false
             | _ => False
             end
-        | TagUntagged => False
+        | TagUntagged => forall v, In v vs -> vdet_ok look (v_det v)
         end
     | DOption t => idok look t /\ forall e, look t = Some e -> not_option e
     | DVec t | DSet t | DArray t _ => idok look t
@@ -294,6 +294,7 @@ Section Ok.
         - intros H t Ht. eapply idok_mono; [exact Hm|exact (H t Ht)].
         - intros [H1 H2]. split; [exact H1|]. intros p Hp. eapply idok_mono; [exact Hm|exact (H2 p Hp)]. }
       destruct tag as [|tg|tg ct|]; try exact (fun H => H).
+      4: { intros H v Hv. exact (Hvm _ (H v Hv)). }
       + intros H v Hv. exact (Hvm _ (H v Hv)).
       + intros H v Hv. specialize (H v Hv). destruct (v_det v) as [|t|ts|ps]; try exact H.
         destruct H as [H1 H2]. split; [exact (Hvm _ H1)|exact H2].
@@ -961,7 +962,7 @@ Section ShapeMain.
         | VStruct ps => mem_ustr t (wire_names ps) = false
         | _ => False
         end
-    | TagUntagged => False
+    | TagUntagged => True
     end.
 
   Lemma tagged_kspost items props req ap bs tg nm' n s0 sa rvs deny names ids te :
@@ -992,10 +993,9 @@ Section ShapeMain.
       + intros vr Hin. pose proof (Htd _ (Hback vr Hin)) as H1. pose proof (Hvr vr Hin) as H2. cbn [snd] in H1.
         destruct (v_det vr); try exact H1. split; [exact H2|exact H1].
       + split; [exact Htd|exact Hvr].
-      + exact Htd.
+      + exact Hvr.
     - intros T He Hp t Hr. cbn [realizes] in Hr. apply get_det_of in Hr. cbn [kshape].
-      exists n, vs, deny, (if forallb (fun p => match snd p with VSimple => true | _ => false end) rvs
-                           then [AllSimpleVariants] else []), names, ids.
+      eexists n, vs, deny, _, names, ids.
       split; [exact Hr|]. split; [exact Hnames|]. split; [exact (variant_idents_nodup names ids Hv)|]. split; [exact Hv|].
       split; [exact (eq_trans Hraw Hfst)|]. split; [exact Hident|].
       exact (HBr T He Hp vs Hfind).
@@ -1211,12 +1211,57 @@ Section ShapeMain.
                 exact (proj1 (AllP_In _ _) (HR2 T He Hp) b' Hb').
   Qed.
 
+  (* ---------------------------------------------------------------- untagged over scalar arms *)
+  Definition urv_rel (T : space) (rvs : list (ustring * vdetails)) (b : schema) : Prop :=
+    exists x t', In (x, VItem t') rvs /\ shape cls D T b t'.
+
+  Lemma conv_ubranches_shape n : forall bs i,
+    Forall SP bs -> forallb scalar_kind bs = true ->
+    forall s0 rvs dn s1, conv_ubranches cvf n i bs s0 = Some (rvs, dn, s1) -> wf s0 -> nD < st_next s0 ->
+    ents_ok nD (lk s0) ->
+    wf s1 /\ frame s0 s1 /\ names_sub s0 s1 [] /\ ents_ok nD (lk s1) /\
+    (forall rv, In rv rvs -> vd_ok (lk s1) (snd rv)) /\
+    forall T, ext s1 T -> DefsNamed T -> AllP (urv_rel T rvs) bs.
+  Proof.
+    induction bs as [|b r IH]; intros i HP Hk s0 rvs dn s1 Hcv Hw Hnx Hg.
+    - cbn in Hcv. injection Hcv as <- <- <-.
+      split; [exact Hw|]. split; [apply frame_refl|]. split; [apply names_sub_refl|]. split; [exact Hg|].
+      split; [intros rv []|]. intros T _ _. exact I.
+    - cbn [forallb] in Hk. apply andb_true_iff in Hk. destruct Hk as [Hk1 Hk2].
+      cbn [conv_ubranches] in Hcv.
+      destruct (conv_xvar cvf (NSuggested n) _ b s0) as [[[vd d1] sa]|] eqn:Hx; [|discriminate].
+      destruct (conv_ubranches cvf n (S i) r sa) as [[[vs2 d2] s2]|] eqn:Hrr; [|discriminate].
+      injection Hcv as <- <- <-.
+      assert (Hnn : classify_s b <> Some (false, KNull)).
+      { intro Hc. unfold scalar_kind in Hk1. rewrite Hc in Hk1. discriminate. }
+      set (v := s_Variant ++ ulit (show_N (N.of_nat i))) in *.
+      pose proof (scalar_names cls b (append_name (NSuggested n) v) Hk1) as Hnil.
+      destruct (conv_xvar_shape (NSuggested n) v b (Forall_inv HP) (scalar_frag cls D b Hk1) Hnn s0 vd d1 sa Hx Hw Hnx Hg)
+        as (Hwa & Hfa & Hnsa & Hga & Hvda & _ & HSa).
+      { rewrite Hnil. constructor. }
+      { rewrite Hnil. intros x []. }
+      rewrite Hnil in Hnsa.
+      assert (Hnxa : nD < st_next sa) by (destruct Hfa as [Hx' _]; lia).
+      destruct (IH (S i) (Forall_inv_tail HP) Hk2 sa vs2 d2 s2 Hrr Hwa Hnxa Hga) as (Hw2 & Hfr2 & Hns2 & Hg2 & Hvd2 & HR2).
+      destruct (conv_xvar_scalar cls D _ _ b s0 vd d1 sa Hk1 Hx) as (t & -> & ->).
+      split; [exact Hw2|]. split; [eapply frame_trans; eassumption|]. split.
+      + eapply names_sub_trans with (L1 := []) (L2 := []); eassumption.
+      + split; [exact Hg2|]. split.
+        * intros rv [<-|Hin']; [|exact (Hvd2 rv Hin')]. cbn [snd].
+          eapply vd_ok_mono; [exact (frame_mono sa s2 Hwa Hfr2)|exact Hvda].
+        * intros T He Hp. cbn [AllP]. split.
+          -- exists v, t. split; [left; reflexivity|].
+             pose proof (HSa T (ext_frame _ _ T Hwa Hfr2 He) Hp) as Hps. cbn [payload_sh] in Hps. exact Hps.
+          -- apply AllP_In. intros b' Hb'. destruct (proj1 (AllP_In _ _) (HR2 T He Hp) b' Hb') as (x & t' & Hin & Hsh).
+             exists x, t'. split; [right; exact Hin|exact Hsh].
+  Qed.
+
   Lemma kind_shape items props req ap oneo k nm' s0 te s1
       (Hfk : frag_kind cls D k items props req ap oneo = true)
       (IHitems : Forall SP items)
       (IHprops : Forall (fun kv => SP (snd kv)) props)
       (IHap : OForall SP ap)
-      (IHone : OForall (Forall (PropP SP)) oneo) :
+      (IHone0 : OForall (Forall (fun b => SP b /\ PropP SP b)) oneo) :
     conv_kind cls (ref_id D) cvf k nm' items props req ap oneo s0 = Some (te, s1) -> wf s0 -> nD < st_next s0 ->
     ents_ok nD (lk s0) ->
     NoDup (own_names cls nm' k ++ sub_names cls k nm' items props ap oneo) ->
@@ -1364,14 +1409,41 @@ Section ShapeMain.
              |exact Hg|exact I|exact I|exact I|intros T _ _; exact I|].
       intros T He Hp t Hr. cbn [realizes] in Hr. exact (get_det_of _ _ _ _ Hr).
     - (* KOne: a tagged enum *)
-      cbn [frag_kind] in Hfk. destruct oneo as [bs|]; [|discriminate]. cbn [OForall] in IHone.
+      destruct (arms_props SP oneo IHone0) as [IHone IHoneB].
+      cbn [frag_kind] in Hfk. destruct oneo as [bs|]; [|discriminate]. cbn [OForall] in IHone, IHoneB.
       apply andb_true_iff in Hfk. destruct Hfk as [Hfk Hpt].
       apply andb_true_iff in Hfk. destruct Hfk as [Hfk Hfr']. apply andb_true_iff in Hfk. destruct Hfk as [Hid Hbok].
       destruct (variant_names tg bs) as [names|] eqn:Hnames; [|discriminate].
       destruct (Sanitize.variant_idents cls names) as [ids| |] eqn:Hv; try discriminate Hid.
       cbn [own_names sub_names] in Hnd, Hfr.
-      destruct tg as [|t|t c|]; [| | |discriminate Hpt];
+      destruct tg as [|t|t c|];
         (destruct (type_name cls nm') as [n|] eqn:Hn; [|discriminate]).
+      4: { (* ---- untagged *)
+        cbn [variant_names] in Hnames. cbn [branches_ok] in Hbok.
+        destruct (opt_all_map scalar_arm bs) as [tys|]; [|discriminate].
+        apply andb_true_iff in Hbok. destruct Hbok as [_ Hsk].
+        destruct (conv_ubranches cvf n 0 bs s0) as [[[rvs deny] sa]|] eqn:Hcb; [|discriminate].
+        destruct (conv_ubranches_spec cls D n bs 0%nat s0 rvs deny sa Hsk Hcb) as (Hfst & _ & Hitem).
+        assert (Hnone : filter (fun p : ustring * vdetails => match snd p with VSimple => true | _ => false end) rvs = []).
+        { apply filter_none. intros rv Hin. destruct (Hitem rv Hin) as (t & ->). reflexivity. }
+        rewrite Hnone in Hc. cbn [length Nat.leb] in Hc.
+        destruct (conv_ubranches_shape n bs 0%nat IHoneB Hsk s0 rvs deny sa Hcb Hw Hnx Hg)
+          as (Hwa & Hfa & Hnsa & Hga & Hvda & HRa).
+        destruct (mk_tagged cls n TagUntagged rvs deny) as [te'|] eqn:Hmk; [|discriminate]. injection Hc as <- <-.
+        injection Hnames as Hnames'.
+        assert (Hon : one_names cls TagUntagged nm' bs = []).
+        { clear. induction bs as [|b r IH]; [reflexivity|]. rewrite one_names_cons, IH.
+          destruct b; reflexivity. }
+        refine (tagged_kspost items props req ap bs TagUntagged nm' n s0 sa rvs deny names ids te' Hn _ Hv _
+                  Hwa Hfa _ Hga Hvda I _ Hmk).
+        - cbn [variant_names]. rewrite Hnames'. reflexivity.
+        - rewrite Hfst. exact Hnames'.
+        - rewrite Hon. exact Hnsa.
+        - intros T He Hp vs Hfind. apply AllP_In. intros b Hb.
+          destruct (proj1 (AllP_In _ _) (HRa T He Hp) b Hb) as (x & t' & Hin & Hsh).
+          destruct (Hfind x (VItem t') Hin) as (vr & Hvr & _ & Hdt).
+          destruct b as [|bty bfmt benum bcst bnv bsv bik bitems bai bmni bmxi buq bprops breq bap bmnp bmxp ballo banyo boneo bno bref bdflt btitle];
+            [contradiction|]. cbn [branch_sh]. exists vr. split; [exact Hvr|]. rewrite Hdt. exact Hsh. }
       + (* ---- externally tagged *)
         cbn [variant_names] in Hnames. cbn [branches_ok] in Hbok. rename Hbok into Hpay.
         destruct (conv_xbranches cvf nm' bs s0) as [[[rvs deny] sa]|] eqn:Hcb; [|discriminate].
